@@ -538,66 +538,79 @@ func main() {
 	if os.Getenv("C02_TRACE") != "" {
 		vsched.TraceOn = true
 	}
-	for si, sc := range scenarios {
-		scen := "threads=" + strings.Join(sc, ",")
-		if only := os.Getenv("C02_ONLY"); only != "" && only != strings.Join(sc, ",") {
-			continue
-		}
-		e := &vsched.Explorer{Bound: bound, Horizon: 400000, Body: body(sc), Shard: f.Shard, Shards: f.Shards, Deadline: f.Deadline}
-		e.Check = func(x *vsched.Result) {
-			finish(rep, scen, x)
-			if vsched.TraceOn && len(x.Trace) > 1000 {
-				h := map[string]int{}
-				for _, t := range x.Trace {
-					h[t]++
+	// iterate the bound: every scenario completely with <=1 preemption, then <=2 (thorough: then <=3); in the last
+	// pass the time left is split evenly over the scenarios still to run, so none of them starves
+	first := true
+	for pass := 1; pass <= bound; pass++ {
+		for si, sc := range scenarios {
+			_ = si
+			scen := "threads=" + strings.Join(sc, ",")
+			if only := os.Getenv("C02_ONLY"); only != "" && only != strings.Join(sc, ",") {
+				continue
+			}
+			dl := f.Deadline
+			if pass == bound && !dl.IsZero() {
+				if left := time.Until(dl); left > 0 {
+					dl = time.Now().Add(left / time.Duration(len(scenarios)-si))
 				}
-				fmt.Fprintf(os.Stderr, "LONG %d steps: %v\nTAIL %v\n", len(x.Trace), h, x.Trace[len(x.Trace)-60:])
-				os.Exit(3)
 			}
-			if len(x.Points) > 0 {
-				rep.DistinctNontrivial++
+			e := &vsched.Explorer{Bound: pass, Horizon: 400000, Body: body(sc), Shard: f.Shard, Shards: f.Shards, Deadline: dl}
+			e.Check = func(x *vsched.Result) {
+				finish(rep, scen, x)
+				if vsched.TraceOn && len(x.Trace) > 1000 {
+					h := map[string]int{}
+					for _, t := range x.Trace {
+						h[t]++
+					}
+					fmt.Fprintf(os.Stderr, "LONG %d steps: %v\nTAIL %v\n", len(x.Trace), h, x.Trace[len(x.Trace)-60:])
+					os.Exit(3)
+				}
+				if len(x.Points) > 0 {
+					rep.DistinctNontrivial++
+				}
 			}
-		}
-		e.Discard = func(x *vsched.Result) {
-			if !x.Deadlock && !x.Horizon {
+			e.Discard = func(x *vsched.Result) {
+				if !x.Deadlock && !x.Horizon {
+					kv.VerifFamilyWait(w.fam)
+					_ = kv.VerifCloseStore(w.store)
+				}
+				teardown()
+			}
+			if first && f.Shard == 0 {
+				// determinism proof: replay the default schedule twice and compare the observation logs
+				// (teardown of the two replay worlds is done by hand)
+				a := vsched.Run(nil, 400000, body(sc))
 				kv.VerifFamilyWait(w.fam)
 				_ = kv.VerifCloseStore(w.store)
+				teardown()
+				b := vsched.Run(nil, 400000, body(sc))
+				kv.VerifFamilyWait(w.fam)
+				_ = kv.VerifCloseStore(w.store)
+				teardown()
+				if strings.Join(a.Log, "|") != strings.Join(b.Log, "|") || len(a.Points) != len(b.Points) {
+					vevid.Fatal("nondeterministic replay:\n%v\n%v", a.Log, b.Log)
+				}
+				rep.Extra["determinism_replay"] = "ok"
 			}
-			teardown()
-		}
-		if si == 0 && f.Shard == 0 {
-			// determinism proof: replay the default schedule twice and compare the observation logs
-			// (teardown of the two replay worlds is done by hand)
-			a := vsched.Run(nil, 400000, body(sc))
-			kv.VerifFamilyWait(w.fam)
-			_ = kv.VerifCloseStore(w.store)
-			teardown()
-			b := vsched.Run(nil, 400000, body(sc))
-			kv.VerifFamilyWait(w.fam)
-			_ = kv.VerifCloseStore(w.store)
-			teardown()
-			if strings.Join(a.Log, "|") != strings.Join(b.Log, "|") || len(a.Points) != len(b.Points) {
-				vevid.Fatal("nondeterministic replay:\n%v\n%v", a.Log, b.Log)
+			first = false
+			e.Explore()
+			if e.Diverged != "" {
+				vevid.Fatal("replay divergence in %s: %s", scen, e.Diverged)
 			}
-			rep.Extra["determinism_replay"] = "ok"
-		}
-		e.Explore()
-		if e.Diverged != "" {
-			vevid.Fatal("replay divergence in %s: %s", scen, e.Diverged)
-		}
-		if e.Capped {
-			rep.Cap("deadline reached in scenario " + scen)
-		}
-		rep.Evaluations += e.Executions
-		rep.States += e.Executions
-		rep.Transitions += e.Points
-		rep.TracesValidated += e.Executions
-		rep.Count("schedules["+scen+"]", e.Executions)
-		if mp, _ := rep.Extra["max_points_in_one_schedule"].(int); e.MaxPoints > mp {
-			rep.Extra["max_points_in_one_schedule"] = e.MaxPoints
-		}
-		if f.Shard == 0 {
-			rep.Sample(map[string]interface{}{"scenario": scen, "schedules_this_worker": e.Executions, "max_points": e.MaxPoints})
+			if e.Capped {
+				rep.Cap(fmt.Sprintf("deadline reached in scenario %s with <=%d preemptions", scen, pass))
+			}
+			rep.Evaluations += e.Executions
+			rep.States += e.Executions
+			rep.Transitions += e.Points
+			rep.TracesValidated += e.Executions
+			rep.Count(fmt.Sprintf("schedules[%s,bound=%d]", scen, pass), e.Executions)
+			if mp, _ := rep.Extra["max_points_in_one_schedule"].(int); e.MaxPoints > mp {
+				rep.Extra["max_points_in_one_schedule"] = e.MaxPoints
+			}
+			if f.Shard == 0 {
+				rep.Sample(map[string]interface{}{"scenario": scen, "bound": pass, "schedules_this_worker": e.Executions, "max_points": e.MaxPoints})
+			}
 		}
 	}
 	rep.Write()
